@@ -1,9 +1,12 @@
 import OsacaVerif.Driver.Proto
 import OsacaVerif.Model.ParseA64
+import OsacaVerif.Spec.RenderA64
 /-
   Driver ops of C10 (AArch64 parser).
     a64parse <line>            canonical token form of `parseLine` (same as harness/a64canon.py)
     a64file <content> <start>  `parseFile`: `n` then per line `<lineNo> <text> <class>`
+    a64render <ast> <gaps>     the specification's renderer `Spec.A64.render` (wire format: harness/a64gen.py:ast_wire)
+    a64expect <ast> <gaps>     canonical tokens of `Spec.A64.expectLine`
 -/
 namespace OsacaVerif.Driver.C10
 open OsacaVerif OsacaVerif.Proto OsacaVerif.Text OsacaVerif.ParseA64
@@ -62,6 +65,135 @@ def classS : Out → String
   | .ok (.directive _ _ _) => "D"
   | .ok (.instr _ _ _) => "I"
 
+
+/-! ### decoding the AST wire format (prefix notation, one field per token) -/
+section Wire
+open OsacaVerif.Spec.A64
+
+abbrev D (α : Type) := List Txt → Option (α × List Txt)
+
+def dTok : D Txt
+  | t :: r => some (t, r)
+  | [] => none
+def dNat : D Nat := fun ts =>
+  match ts with
+  | t :: r => match parseNat? t with | some n => some (n, r) | none => none
+  | [] => none
+def dBool : D Bool := fun ts =>
+  match ts with
+  | [49] :: r => some (true, r)
+  | [48] :: r => some (false, r)
+  | _ => none
+def dCh : D Nat := fun ts =>
+  match ts with
+  | [c] :: r => some (c, r)
+  | _ => none
+def dOpt {α : Type} (p : D α) : D (Option α) := fun ts =>
+  match ts with
+  | [126] :: r => some (none, r)
+  | _ => match p ts with | some (x, r) => some (some x, r) | none => none
+def dRep {α : Type} (p : D α) : Nat → D (List α)
+  | 0, ts => some ([], ts)
+  | n + 1, ts =>
+    match p ts with
+    | some (x, r) => match dRep p n r with | some (xs, r1) => some (x :: xs, r1) | none => none
+    | none => none
+def tag (t : Txt) : String := toStr t
+
+def dElem : D ElemA := fun ts => do
+  let (t, r) ← dTok ts
+  match tag t with
+  | "es" => do let (p, r) ← dCh r; let (n, r) ← dNat r; some (.scalar p n, r)
+  | "ev" => do
+    let (p, r) ← dCh r; let (n, r) ← dNat r; let (l, r) ← dOpt dTok r; let (s, r) ← dOpt dCh r
+    some (.vec p n l s, r)
+  | _ => none
+
+def dReg : D RegA := fun ts => do
+  let (t, r) ← dTok ts
+  match tag t with
+  | "sc" => do let (p, r) ← dCh r; let (n, r) ← dNat r; some (.scalar p n, r)
+  | "al" => do let (a, r) ← dTok r; some (.alias a, r)
+  | "ve" => do
+    let (p, r) ← dCh r; let (n, r) ← dNat r; let (l, r) ← dOpt dTok r; let (s, r) ← dOpt dCh r
+    let (i, r) ← dOpt dNat r
+    some (.vec p n l s i, r)
+  | "pr" => do
+    let (p, r) ← dCh r; let (n, r) ← dNat r; let (k, r) ← dTok r
+    match tag k with
+    | "~" => some (.pred p n .none, r)
+    | "P" => do let (c, r) ← dCh r; some (.pred p n (.pred c), r)
+    | "S" => do let (l, r) ← dOpt dTok r; let (c, r) ← dCh r; some (.pred p n (.shape l c), r)
+    | _ => none
+  | _ => none
+
+def dInt : D IntA := fun ts => do
+  let (h, r) ← dBool ts; let (n, r) ← dBool r; let (x, r) ← dBool r; let (u, r) ← dBool r; let (a, r) ← dNat r
+  some (⟨h, n, x, u, a⟩, r)
+
+def dIdent : D IdentA := fun ts => do
+  let (h, r) ← dBool ts; let (rl, r) ← dOpt dTok r; let (n, r) ← dTok r; let (o, r) ← dOpt dTok r
+  some (⟨h, rl, n, o⟩, r)
+
+def dMem : D MemA := fun ts => do
+  let (b, r) ← dReg ts
+  let (k, r) ← dTok r
+  let (mid, r) ← (match tag k with
+    | "N" => some (MemMidA.none, r)
+    | "O" => do
+      let (k2, r) ← dTok r
+      match tag k2 with
+      | "im" => do let (i, r) ← dInt r; some (MemMidA.off (.int i), r)
+      | "id" => do let (i, r) ← dIdent r; some (MemMidA.off (.ident i), r)
+      | _ => none
+    | "X" => do
+      let (x, r) ← dReg r
+      let (op, r) ← dOpt dTok r
+      match op with
+      | none => some (MemMidA.idx x none, r)
+      | some o => do
+        let (am, r) ← dOpt (fun ts => do let (h, r) ← dBool ts; let (a, r) ← dNat r; some ((h, a), r)) r
+        some (MemMidA.idx x (some ⟨o, am⟩), r)
+    | _ => none)
+  let (pre, r) ← dBool r
+  let (post, r) ← dOpt dInt r
+  some (⟨b, mid, pre, post⟩, r)
+
+def dOp : D OpA := fun ts => do
+  let (t, r) ← dTok ts
+  match tag t with
+  | "ls" => do
+    let (i, r) ← dOpt dNat r; let (k, r) ← dNat r; let (es, r) ← dRep dElem k r
+    some (.list es i, r)
+  | "rg" => do let (i, r) ← dOpt dNat r; let (e, r) ← dElem r; let (b, r) ← dNat r; some (.range e b i, r)
+  | "im" => do let (i, r) ← dInt r; some (.int i, r)
+  | "fl" => do
+    let (h, r) ← dBool r; let (n, r) ← dBool r; let (ip, r) ← dTok r; let (fp, r) ← dTok r
+    let (e, r) ← dOpt (fun ts => do
+      let (c, r) ← dCh ts; let (sg, r) ← dCh r; let (d, r) ← dTok r; some ((c, sg, d), r)) r
+    let (f, r) ← dOpt dCh r
+    some (.flt h n ip fp e f, r)
+  | "sh" => do
+    let (h, r) ← dBool r; let (x, r) ← dBool r; let (v, r) ← dNat r; let (op, r) ← dTok r
+    let (ah, r) ← dBool r; let (a, r) ← dNat r
+    some (.shimm h x v op ah a, r)
+  | "cc" => do let (c, r) ← dTok r; some (.cond c, r)
+  | "id" => do let (i, r) ← dIdent r; some (.ident i, r)
+  | "pf" => do let (a, r) ← dTok r; let (b, r) ← dTok r; let (c, r) ← dTok r; some (.prf a b c, r)
+  | "mm" => do let (m, r) ← dMem r; some (.mem m, r)
+  | _ => do let (x, r) ← dReg ts; some (.reg x, r)
+
+def dInstr : D (InstrA × List Txt) := fun ts => do
+  let (mn, r) ← dTok ts
+  let (k, r) ← dNat r
+  let (ops, r) ← dRep dOp k r
+  let (c, r) ← dOpt (fun ts => do let (n, r) ← dNat ts; dRep dTok n r) r
+  let (ng, r) ← dNat r
+  let (gs, r) ← dRep dTok ng r
+  some ((⟨mn, ops, c⟩, gs), r)
+
+end Wire
+
 def handle (r : Req) : Option String :=
   match r.op, r.args with
   | "a64parse", [l] => some (outS (parseLine (field l)))
@@ -69,6 +201,14 @@ def handle (r : Req) : Option String :=
     let fl := parseFile (field c) ((parseNat? (field st)).getD 0)
     some (" ".intercalate (toString fl.length ::
       (fl.map fun x => toString x.lineNo ++ " " ++ enc x.text ++ " " ++ classS x.out)))
+  | "a64render", args =>
+    match dInstr (args.map field) with
+    | some ((a, gs), []) => some (enc (Spec.A64.render a gs))
+    | _ => some "bad-ast"
+  | "a64expect", args =>
+    match dInstr (args.map field) with
+    | some ((a, _), []) => some (" ".intercalate (lineToks (Spec.A64.expectLine a)))
+    | _ => some "bad-ast"
   | _, _ => none
 
 end OsacaVerif.Driver.C10
